@@ -554,7 +554,7 @@ fn sprinkle(rng: &mut Rng, d: &mut BD, count: usize, around: Option<usize>) {
 
 /// (root, forced first moves). `None` when the random draw is not accepted by the crate / not valid.
 pub fn special_scenario(rng: &mut Rng) -> Option<(Board, Vec<ChessMove>)> {
-    let kind = rng.below(8);
+    let kind = rng.below(10);
     let mut d = BD::empty();
     let white = rng.chance(1, 2);
     let (c, o) = if white { (Color::White, Color::Black) } else { (Color::Black, Color::White) };
@@ -581,9 +581,52 @@ pub fn special_scenario(rng: &mut Rng) -> Option<(Board, Vec<ChessMove>)> {
             if d.sq[ck].is_none() { d.sq[ck] = Some((Piece::King, c)); } else { return None; }
             let ok = match rng.below(3) { 0 => near(rng, landing, 3), 1 => sqi(rk(3), rng.below(8)), _ => rng.below(64) };
             if d.sq[ok].is_none() { d.sq[ok] = Some((Piece::King, o)); } else { return None; }
+            // sometimes the capturing pawn is pinned: its king and an enemy slider on one line through it
+            if rng.chance(1, 3) {
+                let psq = sqi(rk(3), af) as i32;
+                let dirs = [(0, 1), (1, 0), (0, -1), (-1, 0), (1, 1), (1, -1), (-1, 1), (-1, -1)];
+                let di = rng.below(8);
+                let (dr, df) = dirs[di];
+                let (kd, sd) = (1 + rng.below(3) as i32, 1 + rng.below(3) as i32);
+                let (kr, kf) = (psq / 8 + dr * kd, psq % 8 + df * kd);
+                let (sr, sf) = (psq / 8 - dr * sd, psq % 8 - df * sd);
+                if kr >= 0 && kr < 8 && kf >= 0 && kf < 8 && sr >= 0 && sr < 8 && sf >= 0 && sf < 8 {
+                    let (ks, ss) = ((kr * 8 + kf) as usize, (sr * 8 + sf) as usize);
+                    if d.sq[ss].is_none() && (d.sq[ks].is_none() || d.sq[ks] == Some((Piece::King, o))) {
+                        // move o's king there (remove the old one)
+                        for i in 0..64 { if d.sq[i] == Some((Piece::King, o)) { d.sq[i] = None; } }
+                        d.sq[ks] = Some((Piece::King, o));
+                        let p = if di < 4 { if rng.chance(1, 2) { Piece::Rook } else { Piece::Queen } } else { if rng.chance(1, 2) { Piece::Bishop } else { Piece::Queen } };
+                        d.sq[ss] = Some((p, c));
+                    }
+                }
+            }
             let extra = rng.below(5); sprinkle(rng, &mut d, extra, Some(landing));
             first.push((sqi(rk(1), f), sqi(rk(3), f)));
             focus = Some(landing);
+        }
+        8 | 9 => {
+            // both full armies; o's men all mobile (every pawn advanced one step, two of them on the
+            // fifth rank beside the file on which c now double-pushes): 16 mobile men plus two
+            // en-passant captures = the 18-entry limit of the move list
+            let f = 1 + rng.below(6);
+            let back = [Piece::Rook, Piece::Knight, Piece::Bishop, Piece::Queen, Piece::King, Piece::Bishop, Piece::Knight, Piece::Rook];
+            let ork = |r: usize| if white { 7 - r } else { r };   // ranks from o's point of view
+            for file in 0..8 {
+                d.sq[sqi(rk(0), file)] = Some((back[file], c));
+                d.sq[sqi(rk(1), file)] = Some((Piece::Pawn, c));
+                d.sq[sqi(ork(0), file)] = Some((back[file], o));
+                let r = if file + 1 == f || file == f + 1 { 4 } else { 2 };
+                d.sq[sqi(ork(r), file)] = Some((Piece::Pawn, o));
+            }
+            d.wcr = 3; d.bcr = 3;
+            if rng.chance(1, 2) {
+                // thin out c's army a little (keeps o's 18 entries)
+                for _ in 0..rng.below(4) { let s = sqi(rk(0), [1usize, 2, 3, 5, 6][rng.below(5)]); d.sq[s] = None; }
+            }
+            d.stm = c;
+            first.push((sqi(rk(1), f), sqi(rk(3), f)));
+            focus = Some(sqi(rk(2), f));
         }
         2 => {
             // a king next to an unmoved rook whose owner still has the right; king on its home square
